@@ -94,7 +94,8 @@ def leaksOf (p : Sexp) : Leaks := match p.field? "leaks" with
 def newRegion (lk : Leaks) (fl : NFlags) (disk : Disk) : LoopSt NSt NType NOut → List NType → String
   | _, [] => "WF"
   | ls, t :: ts =>
-    if lk.hasNew && hasNewRelevant ls.st t then "F_hasNewLeak"
+    if !assignableSure (effective disk ls.overlay) t then "Out"
+    else if lk.hasNew && hasNewRelevant ls.st t then "F_hasNewLeak"
     else if lk.newAcc && accRelevant fl ls.st t then "F_getsetLeak"
     else newRegion lk fl disk (iter (newMachine lk fl) disk ls t ts.isEmpty) ts
 
@@ -142,7 +143,8 @@ def genstateCase (id : String) (payload : List Sexp) : List String :=
       let base := if orig.isSome then generate m disk ots else sep
       let (ml, sl) := linesOf (·.name) showNOut comb sep base
       let crossFlag := !fl.getset && disk.any (fun f => !f.defs.isEmpty)
-      let reg0 := if soloMode then "WF" else if crossFlag then "Out"
+      let reg0 := if soloMode then (if newRegion noLeaks fl disk { st := {}, overlay := [], outs := [] } ts == "Out" then "Out" else "WF")
+        else if crossFlag then "Out"
         else newRegion lk fl disk { st := {}, overlay := [], outs := [] } ts
       let reg1 := if reg0 == "WF" && orig.isSome then newRegion lk fl disk { st := {}, overlay := [], outs := [] } ots else reg0
       let reg := if reg1 == "WF" && orig.isSome && fl.getset && !(depsFirst ts [] && depsFirst ots []) then "F_embedderFirst" else reg1
